@@ -123,6 +123,17 @@ def run_case(ck, desc):
     dry = comp.pop("dryness")
     table = fluids.build_pvt_gas(comp, dry, maximum_pressure=desc["pmax"])
     ck.count("tables_built")
+    # the same gas as a labelled row of a wells table whose fields come in another order (lab reports
+    # list N2, CO2, H2S) with further fields in between: every value is found by its LABEL
+    import pandas as pd
+
+    order = ["CO2", "Reservoir Temperature (deg F)", "N2", "Gas Specific Gravity", "H2S", "well", "county"]
+    row = pd.Series({k: dict(comp, well="A-1", county="X").get(k) for k in order})
+    small = fluids.build_pvt_gas(row, dry, maximum_pressure=min(desc["pmax"], 400.0))
+    ref_small = table.iloc[: len(small)]
+    if len(small) != len(ref_small) or not np.array_equal(small["pseudopressure"].to_numpy(), ref_small["pseudopressure"].to_numpy()):
+        ck.violation("builder-reads-the-gas-by-label", {"as": "pd.Series with fields in another order", "max_rel": float(np.max(np.abs(small["pseudopressure"].to_numpy()[1:] / ref_small["pseudopressure"].to_numpy()[1:] - 1))) if len(small) == len(ref_small) and len(small) > 1 else None}, desc)
+    ck.count("tables_built_from_a_labelled_row")
     if desc.get("threads"):
         # one table per well in a thread pool: four gases at four temperatures built at the same
         # time, plus the quadrature route; every result equals the one obtained alone
